@@ -579,6 +579,7 @@ func TestVerifC13MalformedStructured(t *testing.T) {
 				}
 				return decodeErr, applyErr
 			}
+			// refusedVariants: refused by a decoder (malformed in the property's sense)
 			var refusedVariants []verifC13Variant
 			wellFormed := 0
 			for _, v := range variants {
@@ -612,7 +613,20 @@ func TestVerifC13MalformedStructured(t *testing.T) {
 					continue
 				}
 				refused++
-				refusedVariants = append(refusedVariants, v)
+				if !stillWellFormed {
+					// (a decoder - the command's or, for apply-delta, the wrapped original's,
+					// which applyDeltaCmd.apply runs in the staging loop - rejects the payload)
+					// Only these are placed inside batches below. A well-formed command with
+					// invalid arguments can be refused as late as commit time, and a batch whose
+					// commit first hits a stale conditional command is split and replayed one
+					// command at a time (applyCommandsIndividuallyAfterStaleCommit): the
+					// commands before the refused one are then applied, with the durable index
+					// following them, before the error is returned. That is the prefix
+					// one-at-a-time application would have applied too, not a trace of the
+					// refused command, so "batch error => nothing applied" is only claimed for
+					// refusals that happen in the staging loop (decode / ownership).
+					refusedVariants = append(refusedVariants, v)
+				}
 				if decodeErr == nil {
 					refusedAfterDecode++
 					if strings.HasPrefix(victim.class, "applyDelta") && v.depth >= 2 {
@@ -652,6 +666,9 @@ func TestVerifC13MalformedStructured(t *testing.T) {
 				verifC13NoPanic(rt, "ApplyBatch of a batch holding ("+victim.class+": "+v.what+")", v.data, func() { _, batchErr = r.sm.ApplyBatch(context.Background(), cmds) })
 				if batchErr == nil {
 					rt.Fatalf("a batch holding the refused %s variant (%s, payload %x) at position %d of %d was accepted", victim.class, v.what, v.data, pos, len(cmds))
+				}
+				if d := verifC13Diff(shadow.export(rt, all), r.export(rt, all)); d != "" {
+					rt.Fatalf("refused batch (%v) of %d commands (%s) holding the refused %s variant (%s, payload %x) at position %d had side effects (left: shadow replica that never saw it): %s", batchErr, len(cmds), verifC13Classes2(good), victim.class, v.what, v.data, pos, d)
 				}
 				inBatch++
 			}
